@@ -62,8 +62,11 @@ def work(cfg):
                                  "n_batches", "n_exposed", "n_evaluated_copies_submitted", "extreme_draws", "nfe")}
     out["lit"] = None
     out["coq_skip"] = None
+    out["alias"] = r.get("alias") or []
     if r["status"] == "ok" and r.get("trace"):
-        if cfg.get("cons") == "strict":
+        if cfg.get("light"):
+            out["coq_skip"] = "particle-swarm stress run (oracle and aliasing check only)"
+        elif cfg.get("cons") == "strict":
             out["coq_skip"] = "strict/callable constraints (oracle only)"
         elif not T.cv_exact(r):
             out["coq_skip"] = "inexact float sum in constraint_violation"
@@ -72,7 +75,7 @@ def work(cfg):
             if out["lit"] is None:
                 out["coq_skip"] = "trace too large / user function not functional"
         tr = r["trace"]
-        if tr["steps"]:
+        if tr["steps"] and not cfg.get("light"):
             b, e = tr["steps"][min(1, len(tr["steps"]) - 1)]
             out["sample"] = {"cfg": cfg, "step": 1, "batches(before,provenance,after)": repr(b)[:300],
                              "exposed_snapshot": repr(tr["table"][e[0]]) if e else None}
@@ -91,7 +94,8 @@ def configs(ctx):
         # quick: half of the grid, rotated by the seed (every algorithm x type is still hit)
         for i, g in enumerate(grid):
             if (i + ctx.seed) % 2 == 0:
-                cfgs.append(T.finalize(g, rng))
+                # shorter runs in the quick tier keep the Coq literals small (the stress runs below are the long ones)
+                cfgs.append(T.finalize(dict(g, steps=6 if g["alg"] == "MOEAD" else 8), rng))
     # specials, every run
     for alg in T.ALGORITHMS:
         kinds = [k for k in T.KINDS if T.applicable(alg, k)]
@@ -102,6 +106,8 @@ def configs(ctx):
         if ctx.thorough:
             cfgs.append(T.finalize(dict(base, cons="cmp", evaluator="process", subclass=False), rng))
             cfgs.append(T.finalize(dict(base, cons="none", evaluator="process", subclass=True, variator="explicit" if alg not in ("OMOPSO", "CMAES") else "default"), rng))
+    # particle swarms whose bounded leader archive really truncates (small leader_size, larger swarm, 40-60 steps)
+    cfgs += T.pso_stress_configs(rng, ctx.scale(48, 400))
     for k in T.KINDS:                                                                               # restarts on every type
         cfgs.append(T.finalize({"alg": "EpsNSGAII", "kind": k, "cons": "cmp", "maximize": False, "variator": "default", "restart": True,
                                 "evaluator": "copy"}, rng))
@@ -130,9 +136,12 @@ def run(ctx):
     skipped = Counter()
     rejected, candidates, unexpected = [], [], []
     steps = exposed = batches = copies = 0
+    aliased = []
     for r in results:
         cfg = r["cfg"]
         ctx.count()
+        if r.get("alias"):
+            aliased.append((cfg, r["alias"][0]))
         dist["status"][r["status"]] += 1
         if r["status"] == "rejected":
             rejected.append({"cfg": "%s/%s" % (cfg["alg"], cfg["kind"]), "why": r.get("why")})
@@ -165,7 +174,7 @@ def run(ctx):
         exposed += r["n_exposed"] or 0
         batches += r["n_batches"] or 0
         copies += r["n_evaluated_copies_submitted"] or 0
-        if r["steps"] >= 3 and (r["n_batches"] or 0) >= 3:
+        if r["steps"] >= 3 and ((r["n_batches"] or 0) >= 3 or cfg.get("light")):
             ctx.mark(token(cfg))
         if r["lit"]:
             lits.append(r["lit"])
@@ -174,6 +183,35 @@ def run(ctx):
             skipped[r["coq_skip"]] += 1
         if r.get("sample"):
             ctx.sample(r["sample"], limit=3)
+    # an object that the step model says is NEW (particles / CMA-ES samples / PESA2 offspring are fresh copies) was already
+    # exposed before the step: the implementation moves exposed solutions in place.  That is a model/implementation
+    # disagreement; the search for an input on which the PROPERTY fails = more runs of the affected algorithms.
+    search_runs = 0
+    if aliased:
+        algs = sorted(set(c["alg"] for c, _ in aliased))
+        extra = []
+        if any(a in ("OMOPSO", "SMPSO") for a in algs):
+            extra += T.pso_stress_configs(ctx.rng, 160)
+        for a in algs:
+            if a not in ("OMOPSO", "SMPSO"):
+                for g in [g for g in T.all_configs() if g["alg"] == a][:40]:
+                    extra.append(T.finalize(dict(g, steps=30), ctx.rng))
+        with ProcessPoolExecutor(max_workers=NWORKERS) as ex:
+            more = list(ex.map(work, extra, chunksize=4))
+        search_runs = len(more)
+        for r in more:
+            ctx.count()
+            for f in r["c01_fail"][:1]:
+                cfg = r["cfg"]
+                ctx.violation("%s:%s" % (f.get("key", "exposed-solution-inconsistent"), cfg["alg"]),
+                              "%s (%s variables, swarm %s / leaders %s, seed %d): step %d, %s: %s" % (
+                                  cfg["alg"], cfg["kind"], cfg.get("size"), cfg.get("leader_size"), cfg["seed"], f["step"], f["where"], f["what"]),
+                              {"kind": "run", "cfg": cfg, "step": f["step"], "where": f["where"]})
+    ctx.obligation("no-exposed-solution-moved-in-place(%d runs)" % len(results), "correspondence", not aliased,
+                   "objects that the algorithm's step model says are new were already exposed at the previous boundary: " +
+                   "; ".join("%s seed %d (swarm %s, leaders %s) step %d %s sid %d" % (c["alg"], c["seed"], c.get("size"), c.get("leader_size"),
+                                                                                    a["step"], a["attr"], a["sid"]) for c, a in aliased[:5]) +
+                   (" | searched %d more runs for an exposed solution that contradicts the property" % search_runs if aliased else ""))
     ctx.obligation("traced-runs-complete(%d runs)" % len(results), "harness", not unexpected,
                    "; ".join("%s -> %s %s" % (u["cfg"], u["status"], u.get("exc")) for u in unexpected[:4]))
     for u in unexpected[:3]:
@@ -253,6 +291,9 @@ def run(ctx):
         "traces_rejected_by_model": len(bad or []),
         "traces_not_following_algorithm_model": len(bad_flow),
         "traces_oracle_only": dict(skipped),
+        "pso_stress_runs": sum(1 for r in results if r["cfg"].get("light")),
+        "runs_with_exposed_object_moved_in_place": len(aliased),
+        "search_runs_after_aliasing": search_runs,
         "step_boundaries_checked": steps,
         "exposed_solutions_checked_by_oracle": exposed,
         "evaluate_all_batches_logged": batches,
@@ -268,7 +309,8 @@ def run(ctx):
     ctx.rule = ("runs: the grid algorithm(15) x variable type(7 incl. mixed Binary+Integer and very narrow Real ranges; Real only for GDE3/OMOPSO/SMPSO/CMAES) x {unconstrained, "
                 "constrained} x {min, max/mixed} x {default, explicit operator} (quick: half of the grid rotated by the seed; thorough: all x4), "
                 "evaluator/seed/size/scripted-extreme-probability/inject/subclass drawn from ctx.rng, plus restart, injected-population, strict-"
-                "constraint and heavy-extreme-draw specials; non-trivial run = completed >= 3 step boundaries with >= 3 evaluate_all batches, "
+                "constraint and heavy-extreme-draw specials, plus OMOPSO/SMPSO stress runs (swarm 12-30, leader archive 2-5, six variables with a "
+                "ZDT-like front, 40-60 steps; oracle + aliasing check, not shipped to Coq); non-trivial run = completed >= 3 step boundaries with >= 3 evaluate_all batches, "
                 "distinct by full configuration incl. seed; operator cases: non-trivial = the operator changed a variable at least once")
     ctx.assumptions += ["the user function is deterministic and side-effect free",
                         "evaluators return finished jobs in job order, each either the submitted object or an evaluated copy (C12)",
